@@ -28,11 +28,13 @@ def gen(w, rng, tier):
     return []
 
 
-def consumer_source(feature, tables, dump_types, std, serde, dec=False):
+def consumer_source(feature, tables, dump_types, std, serde, dec=False, consumer_no_std=None):
     by_name = {t["name"]: t for t in dump_types}
     mods = {it["name"]: it for it in tables["catalogue"]}
     lines = ["#![allow(unused, non_snake_case)]"]
-    if not std:
+    # the consumer is `#![no_std]` when the library is built without std — and, as a separate dimension, also
+    # while the library's `std` feature IS enabled (cargo unifies features: another crate of the build may ask for it)
+    if (not std) if consumer_no_std is None else consumer_no_std:
         lines.insert(0, "#![no_std]")
     lines.append("use quantities::prelude::*;")
     body = ["    let _p = quantities::SIPrefix::KILO;", "    let _one: AmountT = Amnt!(1) * quantities::ONE;",
@@ -87,15 +89,18 @@ def configs(tier, seed):
         for i, n in enumerate(names):
             k = (i + seed) % 8
             out.append((n, bool(k & 1), bool(k & 2), bool(k & 4)))
-    return out
+    # a `#![no_std]` consumer while the library is built WITH std (5th component; None = consumer follows the library)
+    extra_nostd = [(n, True, bool((i + seed) & 1), False, True) for i, n in enumerate(names)
+                   if tier == "thorough" or i % 5 == seed % 5]
+    return [c + (None,) for c in out] + extra_nostd
 
 
 def run_config(root, worker, cfg, tables, dump_types):
-    feature, std, dec, serde = cfg
+    feature, std, dec, serde, cns = cfg
     feats = (FEATURES if feature == "all" else ([] if feature == "none" else [feature]))
     qf = list(feats) + (["std"] if std else []) + (["fpdec"] if dec else []) + (["serde"] if serde else [])
-    src = consumer_source(feature, tables, dump_types, std, serde, dec)
-    name = f"c19_{feature}_{int(std)}{int(dec)}{int(serde)}"
+    src = consumer_source(feature, tables, dump_types, std, serde, dec, cns)
+    name = f"c19_{feature}_{int(std)}{int(dec)}{int(serde)}{'n' if cns else ''}"
     extra = 'serde = { version = "1" }\n' if serde else ""
     d = cc.make_crate(root, name, src, qf, default_features=False, extra_deps=extra)
     ok, diags, tail = cc.cargo_check(d, f"c19-w{worker}")
@@ -157,8 +162,9 @@ def extra(tier, seed):
             if ok:
                 cov["configurations_built"] += 1
             else:
-                what = f"configuration feature={cfg[0]} std={cfg[1]} decimal={cfg[2]} serde={cfg[3]} does not build"
-                fails.append(dict(config=dict(feature=cfg[0], std=cfg[1], decimal=cfg[2], serde=cfg[3]), what=what,
+                what = (f"configuration feature={cfg[0]} std={cfg[1]} decimal={cfg[2]} serde={cfg[3]}"
+                        f"{' (no_std consumer)' if cfg[4] else ''} does not build")
+                fails.append(dict(config=dict(feature=cfg[0], std=cfg[1], decimal=cfg[2], serde=cfg[3], consumer_no_std=bool(cfg[4])), what=what,
                                   diagnostics=[d.as_dict() for d in diags[:5]] or tail[-800:], consumer=src,
                                   oracle="FAIL:" + what))
         # feature independence of results: a harness built with ONE feature vs the full harness
@@ -192,7 +198,7 @@ def extra(tier, seed):
                     break
     cov["evaluations"] = cov["configurations"] + cov["corpus_lines_compared"]
     cov["distinct_nontrivial"] = cov["configurations"]
-    cov["samples"] = [dict(config=dict(feature=c[0], std=c[1], decimal=c[2], serde=c[3])) for c in cfgs[:4]]
+    cov["samples"] = [dict(config=dict(feature=c[0], std=c[1], decimal=c[2], serde=c[3], consumer_no_std=bool(c[4]))) for c in cfgs[:4]]
     return cov, fails, broken
 
 
